@@ -71,6 +71,7 @@ GLOBAL_DROPS = [
     (r"(?m)^[ \t]*#\[(inline|allow|must_use|doc|derive|cfg_attr|non_exhaustive|serde)[^\]]*\]\s*\n", ""),
     (r"\bpub\s*\(\s*(crate|super)\s*\)", "pub"),
     (r"(?m)^[ \t]*debug_assert!\([^;]*\);\s*\n", ""),
+    (r"\|_\|", "|_unused|"),              # Verus: closure parameters must be variables, not patterns (alpha-renaming of an unused parameter)
 ]
 
 
